@@ -16,7 +16,7 @@ ID = 'C15'
 LEVEL = 'exploration'
 RUNS = {'quick': 30000, 'thorough': 600000}
 CHUNK = 80
-PROBES = ['very_many_images', 'lost_record', 'repeated_request_same_object', 'frame_exactly_at_load_address', 'frame_one_below_lowest', 'frame_between_adjacent_images', 'duplicate_address_announced',
+PROBES = ['records_fed_in_batches', 'map_record_with_start_qualifier_in_launch', 'terminate_names_sampled_thread_inside_sample', 'very_many_images', 'lost_record', 'repeated_request_same_object', 'frame_exactly_at_load_address', 'frame_one_below_lowest', 'frame_between_adjacent_images', 'duplicate_address_announced',
           'header_count_below_data', 'header_count_above_data', 'header_count_zero', 'sample_without_header', 'sample_without_flag',
           'launch_with_nested_maps', 'shared_cache_map', 'image_announced_inside_sample_window', 'announcement_after_sample',
           'unrelated_record_in_sample', 'several_data_records', 'via_file_api', 'out_of_order_announcements']
@@ -71,6 +71,8 @@ def generate(rng, index, tier):
             # inside a launch window, as a map or a shared-cache map, with unrelated records around
             shared = rng.chance(0.4)
             inner = [worlds.op_imap(rng, im['uuid'], im['addr'], shared=shared)]
+            if not shared and rng.chance(0.15):
+                inner[0]['q'] = 1         # a map record that carries a START qualifier: not reported on its own, still nested in the launch
             if rng.chance(0.4):
                 inner.insert(rng.randrange(2), worlds.op_single(rng, 'MACH_MKRUNNABLE'))
             if rng.chance(0.3) and len(images) > 1:
@@ -79,6 +81,9 @@ def generate(rng, index, tier):
             ops.append({'k': 'sys', 'name': 'DBG_DYLD_TIMING_LAUNCH_EXECUTABLE', 's': [0, rng.randrange(1 << 40), 0, 0],
                         'e': [0, 0, 0, 0], 'in': inner})
     for i in range(nann):
+        if rng.chance(0.25):
+            for _t in range(rng.randint(1, 3)):
+                ann_ops[i].insert(rng.randrange(len(ann_ops[i]) + 1), {'k': 'one', 'name': 'TRACE_DATA_THREAD_TERMINATE', 'q': 0, 'a': [rng.pick([500, 501]), 0, 0, 0]})
         threads.append({'tid': 400 + i, 'ops': ann_ops[i]})
     for si in range(rng.randint(1, 2)):
         ops = []
@@ -97,6 +102,9 @@ def generate(rng, index, tier):
             uhdr = (rng.randrange(0, 512), nframes) if rng.chance(0.88) else None
             hdr_tail = [rng.randrange(0, 9), rng.randrange(0, 9)] if rng.chance(0.25) else [0, 0]      # the header's other two words: not the count
             extra = []
+            if rng.chance(0.12):
+                # somebody (this thread or not) logs the end of a thread's life naming a sampled thread, while the sample is open
+                extra.append({'k': 'one', 'name': 'TRACE_DATA_THREAD_TERMINATE', 'q': 0, 'a': [rng.pick([500, 501, 500 + si]), 0, 0, 0]})
             if rng.chance(0.3):
                 extra.append(worlds.op_single(rng, 'MACH_MKRUNNABLE'))
             if rng.chance(0.3):
@@ -144,7 +152,8 @@ def generate(rng, index, tier):
         for _f in range(rng.randint(1, 2)):
             faults.append({'k': 'drop', 'at': rng.randrange(max(1, total))})      # a lost record (END of a sample, a header, a map...)
     return {'threads': threads, 'schedule': sched, 'via_file': rng.chance(0.3), 't0': (rng.randrange(1, 1 << 40) << 8) | 1,
-            'tsmode': worlds.draw_tsmode(rng, ties=False), 'faults': faults, 'requests': rng.pick([1, 1, 2, 3]), 'earlier_other': rng.chance(0.2)}
+            'tsmode': worlds.draw_tsmode(rng, ties=False), 'faults': faults, 'requests': rng.pick([1, 1, 2, 3]), 'earlier_other': rng.chance(0.2),
+            'pages': [rng.randint(1, 7) for _ in range(rng.randint(1, 5))] if rng.chance(0.25) else None}
 
 
 def _words_to_uuid(a):
@@ -174,6 +183,11 @@ def execute(scn):
     for i, r in enumerate(stream):
         if r['id'] == MAP and r['q'] in (0, 3):
             ann.append([i, i, r['a'][2], _words_to_uuid(r['a'])])
+        elif r['id'] == MAP and r['q'] == 1:
+            bump('probe:map_record_with_start_qualifier_in_launch')
+            if r['t'] in open_launch:
+                ann.append([i, None, r['a'][2], _words_to_uuid(r['a'])])
+                open_launch[r['t']].append(len(ann) - 1)
         elif r['id'] == SC and r['q'] in (0, 3):
             if r['t'] in open_launch:
                 ann.append([i, None, r['a'][2], _words_to_uuid(r['a'])])
@@ -185,6 +199,8 @@ def execute(scn):
             for k in open_launch.pop(r['t']):
                 ann[k][1] = i
             bump('probe:launch_with_nested_maps')
+        if table.get(r['id']) == 'TRACE_DATA_THREAD_TERMINATE' and r['a'][0] in open_sample:
+            bump('probe:terminate_names_sampled_thread_inside_sample')
         if r['id'] == PE and r['q'] == 1:
             open_sample[r['t']] = {'start': i, 'hdr': None, 'rows': [], 'flags': r['a'][0], 'ts': r['ts'], 'tid': r['t'], 'other': 0}
         elif r['t'] in open_sample and r['id'] != PE:
@@ -225,7 +241,23 @@ def execute(scn):
     else:
         tparser = tool.tp_mod.TracesParser(table, {}, {})
         cparser = tool.cs_mod.CallstacksParser([], [])
-        got, exc = common.drain(lambda: cparser.feed_generator(tparser.feed_generator(worlds.kevents_of(stream))))
+        evs_ = worlds.kevents_of(stream)
+        if scn.get('pages'):
+            # live capture: the records arrive in batches, each batch goes through a feed_generator() call of its own on the same
+            # long-lived parser objects (a sample may begin in one batch and end in the next)
+            bump('probe:records_fed_in_batches')
+
+            def batches():
+                pos = 0
+                k = 0
+                while pos < len(evs_):
+                    n_ = scn['pages'][k % len(scn['pages'])]
+                    k += 1
+                    yield from tparser.feed_generator(iter(evs_[pos:pos + n_]))
+                    pos += n_
+            got, exc = common.drain(lambda: cparser.feed_generator(batches()))
+        else:
+            got, exc = common.drain(lambda: cparser.feed_generator(tparser.feed_generator(evs_)))
     if scn.get('via_file') and exc is None:
         # the rendered view of the same request names the same frames: ' ' * i + 'uuid:0x<offset>' or '0x<address>'
         fp = tool.pk_mod.PyKdebugParser()
